@@ -161,6 +161,11 @@ def gen_c16(tier, seed):
         r = rng_for(seed, "c16", i)
         o = {"in": R_PIPE, "out": R_PIPE, "err": r.choice([R_PIPE, R_PIPE, R_PIPE, R_STDOUT, R_PARENT, R_DISCARD]),
              "nb": r.randrange(2), "ignpipe": 1, "stop": KILL_POLICY}
+        if i % 13 == 7:
+            # stdout not a pipe (possibly nothing to drain at all)
+            o["out"] = r.choice([R_DISCARD, R_PARENT])
+            if o["err"] == R_STDOUT:
+                o["err"] = R_DISCARD
         kind = i % 9
         ev = []
         t = 5
